@@ -29,28 +29,28 @@ func TestC01(t *testing.T) {
 func TestC05(t *testing.T) {
 	RunCheck(t, CheckSpec{Prop: "C05",
 		Rule:   "plans built for many terms per instance (30-80 H long; demotion causes: heartbeat faults, partitions, tampering, health scripts, preemption, grace expiry, stops; recovery, restarts of the same object and as a new object); oracle over every record version ever written: acquisition tokens never appeared before in the key, refreshes carry the replaced version's token and id, OnPromote/Token()/Status().Token equal the stored token. Non-trivial = some instance has >= 2 terms; distinct by plan hash.",
-		Gen:    func(t *rapid.T) *Plan { return GenPlan(t, "terms", knobsTerms) },
+		Gen:    MixReacquire("terms", func(t *rapid.T) *Plan { return GenPlan(t, "terms", knobsTerms) }),
 		Oracle: OracleC05})
 }
 
 func TestC08(t *testing.T) {
 	RunCheck(t, CheckSpec{Prop: "C08",
 		Rule:   "plans under every fault class of the harness at once (op faults, partitions, lost/delayed watch events, outside writes, priority preemption, health scripts, connection notifications, ValidateTokenOrDemote probes, stops at op phases, restarts); oracle: per election object OnPromote/OnDemote entries strictly alternate starting with a promotion, the k-th promotion carries the k-th term's token, and at every quiescent snapshot outside a stop call IsLeader() == (#OnPromote - #OnDemote == 1). Non-trivial = a run with >= 1 demotion by a cause other than Stop (cause histogram in classes); distinct by plan hash.",
-		Gen:    func(t *rapid.T) *Plan { return GenPlan(t, "all", knobsAll) },
+		Gen:    MixReacquire("all", func(t *rapid.T) *Plan { return GenPlan(t, "all", knobsAll) }),
 		Oracle: OracleC08})
 }
 
 func TestC18(t *testing.T) {
 	RunCheck(t, CheckSpec{Prop: "C18",
 		Rule:   "plans under every fault class; Status() of every election object at every quiescent point (before/after each timeline action and on a grid of H/3); oracle: IsLeader <=> State==LEADER, documented states only, a leader shows its own id, its term token and the revision of its latest successful write answered in time, STOPPED and not leader after a stop, is_leader gauge == IsLeader(), recorded transitions form a chain (or start from CANDIDATE after Start). Non-trivial = >= 3 transitions on some object and a snapshot taken while one of its operations is in flight; distinct by plan hash.",
-		Gen:    func(t *rapid.T) *Plan { return GenPlan(t, "all", knobsAll) },
+		Gen:    MixReacquire("all", func(t *rapid.T) *Plan { return GenPlan(t, "all", knobsAll) }),
 		Oracle: OracleC18})
 }
 
 func TestC19(t *testing.T) {
 	RunCheck(t, CheckSpec{Prop: "C19",
 		Rule:   "plans under every fault class with OnPromote callbacks that block on their context (or work in steps polling it); oracle at every quiescent snapshot: context not done while the object still leads that term, done once the term has ended (claim-down edge for any cause, or a stop call begun). Non-trivial = a term with a blocking callback that ended by a cause other than Stop; distinct by plan hash.",
-		Gen:    func(t *rapid.T) *Plan { return GenPlan(t, "all", knobsAll) },
+		Gen:    MixReacquire("all", func(t *rapid.T) *Plan { return GenPlan(t, "all", knobsAll) }),
 		Oracle: OracleC19})
 }
 
